@@ -216,6 +216,41 @@ func SolveAll(dir string, reps []*FuncReport, timeoutS int, all bool) {
 	}
 	close(ch)
 	wg.Wait()
+	// second pass: an obligation on which no solver answered and at least one ran out of time is tried again,
+	// two at a time and with three times the budget – on a loaded machine the first pass shares the cores with everything else,
+	// and a timeout must not be reported as a violation when the goal is provable given the time.
+	var again []job
+	for _, j := range jobs {
+		o := j.o
+		if o.Kind == "vacuity" || o.Result != "unknown" || len(o.Results) == 0 || timeoutS >= 60 || o.Kind == "known" {
+			continue
+		}
+		allTimeout := false // at least one solver ran out of time (the others gave up or failed): more time may decide it
+		for _, r := range o.Results {
+			allTimeout = allTimeout || r == "timeout"
+		}
+		if allTimeout {
+			again = append(again, j)
+		}
+	}
+	if len(again) > 0 && len(again) <= 12 {
+		sem := make(chan struct{}, 2)
+		var wg2 sync.WaitGroup
+		for _, j := range again {
+			wg2.Add(1)
+			sem <- struct{}{}
+			go func(j job) {
+				defer wg2.Done()
+				defer func() { <-sem }()
+				o := j.o
+				first := o.TimeS
+				qr := Solve(dir, o.Name+".retry", j.rep.Header, o.Assume, o.Goal, 3*timeoutS, all)
+				o.Result, o.Solver, o.TimeS, o.Model, o.Results, o.File = qr.Result, qr.Solver, first+qr.TimeS, qr.Model, qr.PerSolver, qr.File
+				o.Retried = true
+			}(j)
+		}
+		wg2.Wait()
+	}
 }
 
 // solveRaw races the solvers on a complete script.
